@@ -634,3 +634,52 @@ fn c12_t_i16_lerp_f32_8of8() { int_lerp_at!(i16, f32, 3, 8) }
 /// K: asserts=result = round_half_away((8*from + 16*(to-from))/8) whenever that fits i16 (oracle in i32); fast, precise, by-reference; clamped form = value at clamp01(factor); no panic | cap=900
 #[kani::proof]
 fn c12_t_i16_lerp_f32_16of8() { int_lerp_at!(i16, f32, 3, 16) }
+
+// ---- endpoints at the range limits of the wide integer types (quick) ----------------------------------------
+/// Endpoints `k << sh` for every 8-bit `k`: multiples of 2^sh up to the type's limits (u64: 0 .. 255*2^56, i64:
+/// -2^63 .. 127*2^56, ...), all exactly representable in f32 and f64. At the factors 0, 1/2, 1 (and outside [0,1]
+/// for the clamped form) the real-valued result is itself such a multiple, so the expected value is exact: the
+/// endpoints themselves and the exact midpoint, also for to < from and for the full span.
+macro_rules! int_lerp_limits {
+    ($T:ty, $K:ty, $F:ty, $sh:expr) => {{
+        let (ka, kb): ($K, $K) = (kani::any(), kani::any());
+        let (a, b): ($T, $T) = ((ka as $T) << $sh, (kb as $T) << $sh);
+        kani::cover!(b < a, "to < from");
+        kani::cover!(ka == <$K>::MIN && kb == <$K>::MAX, "both range limits");
+        let mid = (((ka as i128) + (kb as i128)) << ($sh - 1)) as $T;
+        assert!(<$T as Lerp<$F>>::lerp_unclamped(a, b, 0.0) == a, "fast formula at 0");
+        assert!(<$T as Lerp<$F>>::lerp_unclamped(a, b, 1.0) == b, "fast formula at 1");
+        assert!(<$T as Lerp<$F>>::lerp_unclamped(a, b, 0.5) == mid, "fast formula at 1/2");
+        assert!(<$T as Lerp<$F>>::lerp_unclamped_precise(a, b, 0.0) == a, "precise formula at 0");
+        assert!(<$T as Lerp<$F>>::lerp_unclamped_precise(a, b, 1.0) == b, "precise formula at 1");
+        assert!(<$T as Lerp<$F>>::lerp_unclamped_precise(a, b, 0.5) == mid, "precise formula at 1/2");
+        assert!(<&$T as Lerp<$F>>::lerp_unclamped(&a, &b, 1.0) == b, "by reference");
+        assert!(<$T as Lerp<$F>>::lerp(a, b, 2.0) == b && <$T as Lerp<$F>>::lerp(a, b, -1.0) == a, "clamped form outside [0,1]");
+        assert!(<$T as Lerp<$F>>::lerp_precise(a, b, 2.0) == b && <$T as Lerp<$F>>::lerp_precise(a, b, -1.0) == a, "clamped precise form outside [0,1]");
+    }};
+}
+/// K: fns=u64::lerp_unclamped,u64::lerp_unclamped_precise,u64::lerp,u64::lerp_precise (Lerp<f32>) | inst=u64, factor f32 | bound=endpoints k<<56 for every 8-bit k (multiples of 2^56 up to the range limit), factors 0, 1/2, 1, 2, -1
+/// K: asserts=result is the endpoint / the exact midpoint, fast and precise formulas, clamped forms, by reference; includes to<from and both range limits; no panic
+#[kani::proof]
+fn c12_q_limits_u64_f32() { int_lerp_limits!(u64, u8, f32, 56) }
+/// K: fns=u64::lerp_unclamped,u64::lerp_unclamped_precise,u64::lerp,u64::lerp_precise (Lerp<f64>) | inst=u64, factor f64 | bound=endpoints k<<56 for every 8-bit k, factors 0, 1/2, 1, 2, -1
+/// K: asserts=result is the endpoint / the exact midpoint, fast and precise formulas, clamped forms, by reference; includes to<from and both range limits; no panic
+#[kani::proof]
+fn c12_q_limits_u64_f64() { int_lerp_limits!(u64, u8, f64, 56) }
+/// K: fns=i64::lerp_unclamped,i64::lerp_unclamped_precise,i64::lerp,i64::lerp_precise (Lerp<f32>) | inst=i64, factor f32 | bound=endpoints k<<56 for every signed 8-bit k (MIN .. 127<<56), factors 0, 1/2, 1, 2, -1
+/// K: asserts=result is the endpoint / the exact midpoint, fast and precise formulas, clamped forms, by reference; includes to<from and the full span; no panic
+#[kani::proof]
+fn c12_q_limits_i64_f32() { int_lerp_limits!(i64, i8, f32, 56) }
+/// K: fns=i64::lerp_unclamped,i64::lerp_unclamped_precise,i64::lerp,i64::lerp_precise (Lerp<f64>) | inst=i64, factor f64 | bound=endpoints k<<56 for every signed 8-bit k, factors 0, 1/2, 1, 2, -1
+/// K: asserts=result is the endpoint / the exact midpoint, fast and precise formulas, clamped forms, by reference; includes to<from and the full span; no panic
+#[kani::proof]
+fn c12_q_limits_i64_f64() { int_lerp_limits!(i64, i8, f64, 56) }
+/// K: fns=u32::lerp_unclamped,u32::lerp_unclamped_precise,i32::lerp_unclamped,i32::lerp_unclamped_precise,usize::lerp_unclamped,isize::lerp_unclamped | inst=u32,i32 (k<<24), usize,isize (k<<56), factor f32 and f64 | bound=endpoints k<<sh for every 8-bit k, factors 0, 1/2, 1, 2, -1
+/// K: asserts=result is the endpoint / the exact midpoint, fast and precise formulas, clamped forms, by reference; no panic | cap=600
+#[kani::proof]
+fn c12_t_limits_other_widths() {
+    match kani::any::<u8>() % 8 {
+        0 => int_lerp_limits!(u32, u8, f32, 24), 1 => int_lerp_limits!(u32, u8, f64, 24), 2 => int_lerp_limits!(i32, i8, f32, 24), 3 => int_lerp_limits!(i32, i8, f64, 24),
+        4 => int_lerp_limits!(usize, u8, f32, 56), 5 => int_lerp_limits!(usize, u8, f64, 56), 6 => int_lerp_limits!(isize, i8, f32, 56), _ => int_lerp_limits!(isize, i8, f64, 56),
+    }
+}
